@@ -464,6 +464,15 @@ class NP:
         if axis is not None:
             return to_obj(np.apply_along_axis(lambda v: self._reduce_cmp(v, better, None, skipnan), axis, a))
         flat = [_as_scalar(v) for v in a.reshape(-1)]
+        if any(_isinstance(v, SC_TYPES) for v in flat):
+            # numpy orders complex numbers by real part first: supported when every imaginary part is concretely zero
+            cs = [v if _isinstance(v, SC_TYPES) else None for v in flat]
+            if any(c is not None and (c.im.sym or c.im.c != 0.0) for c in cs):
+                raise PathEnd('unsupported', 'max/min of complex values with non-zero imaginary part')
+            res = [c.re if c is not None else v for c, v in zip(cs, flat)]
+            r = self._reduce_cmp(oarr(res), better, None, skipnan)
+            from .cplx import SC
+            return SC(r, SV(0.0))
         if skipnan:
             flat = [v for v in flat if v.sym or not math.isnan(v.c)]
         m = flat[0]
